@@ -95,7 +95,7 @@ func registerAll() {
 	reg("L12", "inline/uninline decision table: Array.Storable / OrderedMap.Storable evaluated on the four (inlinable, inlined) states perform exactly the transition and return exactly the representation the state requires; index slabs are never inlinable; data slabs are inlinable only as roots within the caller's limit", ruleL12)
 	reg("L13", "merge only when no sibling can lend, rebalance only when one can (MergeOrRebalanceChildSlab decision edges)", ruleL13)
 
-	reg("L14", "direct-build fast path: newArrayWithElements is called only on the edge where the real summed element size was compared with the slab-size threshold", ruleL14)
+	reg("L14", "direct-build fast path: newArrayWithElements is called only on the edge where the real summed element size was compared with the slab-size threshold, and the size handed over is accumulated from ByteSize() of exactly the elements placed in the list", ruleL14)
 
 	const tCFG = "CFG path rules on go/ssa (must-precede, edge dominance, loop-iteration coverage, error-edge reachability)"
 	propTable["C01"] = &PropSpec{
@@ -163,8 +163,8 @@ func registerAll() {
 	}
 	propTable["C06"] = &PropSpec{
 		ID:          "C06",
-		Rules:       []string{"L1", "L2", "L16", "L19", "L7", "L8"},
-		Explanation: "each prefix / stride size constant equals, by value, the number of bytes its encoder writes outside child elements and extra-data sections (abstract interpretation of every slab and element encoder: fixed-width writes, per-entry loop bytes, spliced helper encoders, two-pass element buffer emitted exactly once); the only conditional group of a data-slab encoder is the sibling link and it is exactly the difference between the non-root and root constants (the documented 16-byte saving); the compact inlined-map form has the same inlined prefix and no fixed per-element bytes, so it can only be shorter; decoders start a decoded slab's size from the same prefix getPrefixSize() returns for that state (root / non-root / inlined); every write of an element list or the inlined flag is accompanied by a size update on all success paths. Every cached size that is established or re-based (slab literals, absolute and re-basing assignments, computed size functions) carries, in its constant part, the encoded prefix of the object kind in the state before / after (root, non-root, inlined for data slabs; one prefix plus whole per-entry constants for every other kind).",
+		Rules:       []string{"L1", "L2", "L16", "L19", "L7", "L8", "L14"},
+		Explanation: "each prefix / stride size constant equals, by value, the number of bytes its encoder writes outside child elements and extra-data sections (abstract interpretation of every slab and element encoder: fixed-width writes, per-entry loop bytes, spliced helper encoders, two-pass element buffer emitted exactly once); the only conditional group of a data-slab encoder is the sibling link and it is exactly the difference between the non-root and root constants (the documented 16-byte saving); the compact inlined-map form has the same inlined prefix and no fixed per-element bytes, so it can only be shorter; decoders start a decoded slab's size from the same prefix getPrefixSize() returns for that state (root / non-root / inlined); every write of an element list or the inlined flag is accompanied by a size update on all success paths. Every cached size that is established or re-based (slab literals, absolute and re-basing assignments, computed size functions) carries, in its constant part, the encoded prefix of the object kind in the state before / after (root, non-root, inlined for data slabs; one prefix plus whole per-entry constants for every other kind); a prefix obtained from getPrefixSize() is the prefix of the object's final state (no later change of the inlined flag or extra data without a new size); wherever root-ness is transferred (SetExtraData / RemoveExtraData) the cached size of that very object is re-based in the matching direction on every path on which it is a data slab; the element size handed to the single-slab direct build is the sum of ByteSize() over exactly the elements placed in the list.",
 		NotDecided:  "that the incremental += / -= bookkeeping sums to the same total on every history (value-level); honesty of client Storable.ByteSize().",
 		Technique:   "abstract interpretation of encoder write widths over go/ssa, per-state constant-part evaluation of decoder size expressions, co-update path rule",
 	}
